@@ -10,7 +10,8 @@ Definition packed (cfg : cfgT) (m m1 : dict) : Prop :=
   exists chunks, pds_to_de m = Ok chunks /\ assign_pds m chunks (pds_bits cfg) = Ok m1.
 
 (* The library also accepts, for an int element, a numeral given as str (it applies int() to it) and, for a datetime
-   element, a canonical ISO string; IsoSpec.elem_text only renders values of the element's own Python type.
+   element, an ISO 8601 date-time string (any spelling read by Dates.parse_iso_any); IsoSpec.elem_text only renders
+   values of the element's own Python type.
    `native_valueb` says a value is of its element's own type, `as_native` reads such a str as the int / datetime it
    denotes (identity on every other value). *)
 Definition native_valueb (c : fieldcfg) (v : value) : bool :=
@@ -21,7 +22,7 @@ Definition native_valueb (c : fieldcfg) (v : value) : bool :=
 Definition as_native (c : fieldcfg) (v : value) : value :=
   match f_ptype c, v with
   | PTInt, VStr s => match py_int s with Some z => VInt z | None => v end
-  | PTDate, VStr s => match parse_iso s with Some d => VDate d | None => v end
+  | PTDate, VStr s => match parse_iso_any s with Some d => VDate d | None => v end
   | _, _ => v
   end.
 (* every present element holds a value of its own Python type *)
